@@ -20,6 +20,11 @@ Assertions
                     and at most once per transaction
   strobe_happens    a completed write to address 1/2 produces its strobe within 4 cycles
   write_data        at the sfr strobe the write_signal carries the transmitted value
+
+Finding on the unchanged tree (scenario predicate kf_short_cs_gap): SPICommandInterface overlooks a CS de-assertion
+of 1-3 cycles that coincides with one of its own state changes (cycle in which the command completes, PROCESSING,
+LATCH_OUTPUT, cycle in which the word completes); the next transaction is then taken as the continuation of the
+aborted one, or ignored in STALL.  With every CS gap >= CS_GAP (4) cycles the property holds on the unchanged tree.
 """
 from amaranth import *
 from ..harness import Harness
@@ -43,7 +48,7 @@ ASSUMPTIONS = [
     "sdi, cs (abort points) and the SCK timing within the contract are free in every cycle",
 ]
 BOUNDS = "BMC from reset; (address bits, register bits) = (2,3) [and (3,4) thorough]; free SCK timing to one complete " \
-         "transaction plus the start of the next; restricted layer with a fixed SCK (low 5, high 1) to two/three transactions " \
+         "transaction plus the start of the next; restricted layer with a free-running SCK (low 6, high 1) to two/three transactions " \
          "(write then read back, abort in between)"
 OUTSIDE = "hosts faster than the stated SCK rate; read strobes; address/register sizes other than the listed ones; " \
           "more than three transactions"
